@@ -6,14 +6,14 @@ from vf.irparse import IntT, FpT, Const
 
 ID = 'C05'
 LEVEL = 'other'
-TUS = ['src/engine/engine_forward.c', 'src/engine/engine_support.c', 'src/engine/engine_util_blas.c', 'src/engine/engine_util_misc.c']
+TUS = ['src/engine/engine_forward.c', 'src/engine/engine_support.c', 'src/engine/engine_util_blas.c', 'src/engine/engine_util_misc.c', 'src/engine/engine_core_smooth.c', 'src/engine/engine_core_util.c', 'src/engine/engine_util_sparse.c']
 EXPLANATION = ('llsym (real-algebraic) runs the real static mj_advance (through its callers\' arguments) on a model with slide/hinge joints: qvel\' = qvel + h*qacc, qpos\' = qpos + h*qvel\' '
                '(velocity first: semi-implicit), time\' = time + h, qacc_warmstart = qacc, untouched dofs keep their values; and the real mj_nextActivation for every non-DC dynamics type: '
                'Euler act + h*act_dot, exact filter act + act_dot*tau*(1 - exp(-h/tau)) (exp uninterpreted), and the result clamped into actrange whenever actlimited (any inputs). '
                'The Butcher tableau constants RK4_A / RK4_B read from the lowered IR equal the classical RK4 tableau.')
 BOUNDS = {'quick': {'nv = nq': '<= 2 slide/hinge joints', 'na': '<= 1'}, 'thorough': {'nv = nq': '<= 3'}}
 OUTSIDE = 'ball/free joints (quaternion integration), implicit integrators (linear solves), RK4 stage composition, history buffers, sleeping, plugins, DC-motor / PID activation states.'
-ASSUMPTIONS = ['real-number semantics', 'mj_sleep returns 0 (nothing put to sleep), sleep disabled', 'nhistory = 0, nplugin = 0', 'exp is an uninterpreted positive function']
+ASSUMPTIONS = ['mjcb_time not installed', 'real-number semantics', 'mj_sleep returns 0 (nothing put to sleep), sleep disabled', 'nhistory = 0, nplugin = 0', 'exp is an uninterpreted positive function']
 BUDGET = {'quick': 400, 'thorough': 1500}
 _c = {}
 SUP = ['src/engine/engine_support.c', 'src/engine/engine_util_blas.c', 'src/engine/engine_util_misc.c', 'src/engine/engine_util_errmem.c', 'src/engine/engine_callback.c']
@@ -42,7 +42,7 @@ def lay():
     return _c['l']
 
 
-def prepare(tier): mod(); so(); so_support(); lay()
+def prepare(tier): mod(); so(); so_support(); lay(); so_euler()
 
 
 def I(v): return z3.BitVecVal(v, 32)
@@ -84,24 +84,28 @@ def unit_advance(tier, nv):
     return ck
 
 
-def unit_activation(tier, dyn):
-    ck = Checker('nextActivation_%s' % dyn, tier, timeout_s=120, semantics='real')
+def unit_activation(tier, dyn, aid=0, adr=0):
+    ck = Checker('nextActivation_%s_id%d_adr%d' % (dyn, aid, adr), tier, timeout_s=120, semantics='real')
     L = lay(); K = build.enum_values('mjDYN_'); ndyn = build.enum_values('mjNDYN')['mjNDYN'] if 'mjNDYN' in build.enum_values('mjNDYN') else 10
     w = W.World('real')
-    M, _ = W.full_struct(w, L, 'mjModel_', 'MJMODEL_POINTERS', {'nu': 1, 'na': 1, 'nactuator': 1}, 'm', default_size=0, symbolic=('actuator_dynprm', 'actuator_actrange', 'actuator_actlimited'),
-                         values={'actuator_dyntype': [K[dyn]], 'actuator_actadr': [0], 'actuator_actnum': [1]})
-    D, _ = W.full_struct(w, L, 'mjData_', 'MJDATA_POINTERS', {'na': 1, 'nu': 1}, 'd', default_size=0, symbolic=('act',))
+    # two actuators and three activation cells: the queried actuator `aid` keeps its state at `adr` (ids and addresses differ when a stateless actuator or one with actnum != 1 precedes it)
+    other = 'mjDYN_INTEGRATOR' if dyn != 'mjDYN_INTEGRATOR' else 'mjDYN_FILTER'
+    M, _ = W.full_struct(w, L, 'mjModel_', 'MJMODEL_POINTERS', {'nu': 2, 'na': 3, 'nactuator': 2}, 'm', default_size=0, symbolic=('actuator_dynprm', 'actuator_actrange', 'actuator_actlimited'),
+                         values={'actuator_dyntype': [K[dyn] if i == aid else K[other] for i in range(2)], 'actuator_actadr': [adr if i == aid else (adr + 1) % 3 for i in range(2)], 'actuator_actnum': [1, 1]})
+    D, _ = W.full_struct(w, L, 'mjData_', 'MJDATA_POINTERS', {'na': 3, 'nu': 2}, 'd', default_size=0, symbolic=('act',))
     h = M.sym('opt.timestep', 'h')
-    act = D.arrays['act'][3][0]; rng = M.arrays['actuator_actrange'][3]; lim = M.arrays['actuator_actlimited'][3][0]; tau_p = M.arrays['actuator_dynprm'][3][0]
+    ndp = len(M.arrays['actuator_dynprm'][3]) // 2
+    act = D.arrays['act'][3][adr]; rng = M.arrays['actuator_actrange'][3][2 * aid:2 * aid + 2]; lim = M.arrays['actuator_actlimited'][3][aid]; tau_p = M.arrays['actuator_dynprm'][3][ndp * aid]
     adot = z3.Real('act_dot'); w.syms.append(('act_dot', 'f64', adot))
     exps = []
     def exp_stub(ex, st, a, i):
         e = z3.Real('exp!%d' % len(exps)); exps.append((e, a[0])); st.pc.append(e > 0); return e
     ex = llsym.Exec(mod(), fpmode='real', stubs={'exp': exp_stub}, loop_bound=8)
-    st = w.to_state(ex); pre = [h > 0, rng[0] <= rng[1], z3.Or(lim == 0, lim == 1)]; st.pc += pre
-    res = ex.run('@mj_nextActivation', [w.P(M.o), w.P(D.o), I(0), I(0), adot], st)
+    allr = M.arrays['actuator_actrange'][3]; alll = M.arrays['actuator_actlimited'][3]
+    st = w.to_state(ex); pre = [h > 0] + [allr[2 * i] <= allr[2 * i + 1] for i in range(2)] + [z3.Or(l == 0, l == 1) for l in alll]; st.pc += pre
+    res = ex.run('@mj_nextActivation', [w.P(M.o), w.P(D.o), I(aid), I(adr), adot], st)
     ck.note_results(ex, res)
-    args = [('ptr', (M.o, 0)), ('ptr', (D.o, 0)), ('i32', 0), ('i32', 0), ('f64', adot)]
+    args = [('ptr', (M.o, 0)), ('ptr', (D.o, 0)), ('i32', aid), ('i32', adr), ('f64', adot)]
     dec = lambda mdl: {'act': str(W.evalnum(mdl, act)), 'act_dot': str(W.evalnum(mdl, adot)), 'h': str(W.evalnum(mdl, h)), 'actrange': [str(W.evalnum(mdl, x)) for x in rng], 'actlimited': W.evalnum(mdl, lim)}
     clip = lambda v: z3.If(v < rng[0], rng[0], z3.If(v > rng[1], rng[1], v))
     for r in res:
@@ -124,6 +128,69 @@ def unit_activation(tier, dyn):
     return ck
 
 
+def so_euler():
+    if 'so3' not in _c:
+        _c['so3'] = build.native_lib(['src/engine/engine_forward.c'], SUP + ['src/engine/engine_core_smooth.c', 'src/engine/engine_core_util.c', 'src/engine/engine_util_sparse.c', 'src/engine/engine_memory.c'],
+                                     name='forward_euler', extra_c=STUB_C, redirect=['mj_sleep'])
+    return _c['so3']
+
+
+def unit_euler(tier, nv):
+    """mj_EulerSkip with the disable flags symbolic: explicit update with d->qacc unless Euler damping is active (then the velocity solve uses M + h*dB/dv), then the semi-implicit position update"""
+    ck = Checker('euler_nv%d' % nv, tier, timeout_s=120, semantics='real')
+    L = lay(); K = build.enum_values('mjJNT_'); KD = build.enum_values('mjDSBL_')
+    import re
+    npoly = int(re.search(r'#define mjNPOLY\s+(\d+)', open(build.REPO + '/include/mujoco/mjmodel.h').read() + open(build.REPO + '/include/mujoco/mjtype.h').read()).group(1))
+    w = W.World('real')
+    nb = nv + 1
+    M, _ = W.full_struct(w, L, 'mjModel_', 'MJMODEL_POINTERS', {'nq': nv, 'nv': nv, 'njnt': nv, 'nbody': nb, 'ntree': nv, 'nC': nv, 'nM': nv, 'nD': nv}, 'm', default_size=0,
+                         symbolic=('dof_damping', 'dof_dampingpoly'),
+                         values={'jnt_type': [K['mjJNT_SLIDE']] * nv, 'jnt_qposadr': list(range(nv)), 'jnt_dofadr': list(range(nv)), 'body_jntadr': [-1] + list(range(nv)), 'body_jntnum': [0] + [1] * nv,
+                                 'jnt_actuatorid': [-1] * nv, 'dof_jntid': list(range(nv)), 'M_rownnz': [1] * nv, 'M_rowadr': list(range(nv)), 'M_colind': list(range(nv)), 'dof_Madr': list(range(nv))})
+    D, _ = W.full_struct(w, L, 'mjData_', 'MJDATA_POINTERS', {'nq': nv, 'nv': nv, 'nbody': nb, 'nC': nv, 'nM': nv, 'nD': nv}, 'd', default_size=0,
+                         symbolic=('qpos', 'qvel', 'qacc', 'qfrc_smooth', 'qfrc_constraint', 'M'))
+    ar = w.obj('arena', 8192).zeros(); D.o.put(D.off('arena'), 'ptr', (ar, 0)); D.set('narena', 8192)
+    h = M.sym('opt.timestep', 'h'); t0 = D.sym('time', 'time'); dis = M.sym('opt.disableflags', 'disableflags'); M.set('opt.enableflags', 0)
+    qpos, qvel, qacc, fs, fc, Mm = [D.arrays[k][3] for k in ('qpos', 'qvel', 'qacc', 'qfrc_smooth', 'qfrc_constraint', 'M')]
+    b = M.arrays['dof_damping'][3]; bp = M.arrays['dof_dampingpoly'][3]
+    ED = KD['mjDSBL_EULERDAMP']; DD = KD['mjDSBL_DAMPER']
+    pre = [h > 0, (dis & ~(ED | DD)) == 0] + [x > 0 for x in Mm] + [x >= 0 for x in b] + [x >= 0 for x in bp]
+    def alloc(ex, st, args, ins):
+        size = ex.as_int(args[1]); return st.alloc(size, ('stack', len(st.objs)))
+    noop = lambda ex, st, args, ins: None
+    stubs = {'mj_sleep': lambda ex, st, a, i: I(0), 'mj_stackAllocInfo': alloc, 'mj_markStack': noop, 'mj_freeStack': noop}
+    ex = llsym.Exec(mod(), fpmode='real', stubs=stubs, loop_bound=max(nv, npoly) + 4)
+    st = w.to_state(ex); st.pc += pre
+    from vf.irparse import PtrT
+    st.aux['extern_init'] = {'@mjcb_time': lambda e, s_, p: e.store(s_, p, PtrT(IntT(8)), llsym.NULL, check=False)}
+    res = ex.run('@mj_EulerSkip', [w.P(M.o), w.P(D.o), I(0)], st)
+    ck.note_results(ex, res)
+    args = [('ptr', (M.o, 0)), ('ptr', (D.o, 0)), ('i32', 0)]
+    dec = lambda mdl: {'h': str(W.evalnum(mdl, h)), 'disableflags': hex(W.evalnum(mdl, dis)), 'damping': [str(W.evalnum(mdl, x)) for x in b], 'dampingpoly': [str(W.evalnum(mdl, x)) for x in bp],
+                       'M': [str(W.evalnum(mdl, x)) for x in Mm], 'qvel': [str(W.evalnum(mdl, x)) for x in qvel], 'qacc': [str(W.evalnum(mdl, x)) for x in qacc],
+                       'qfrc_smooth': [str(W.evalnum(mdl, x)) for x in fs], 'qfrc_constraint': [str(W.evalnum(mdl, x)) for x in fc]}
+    anydamp = z3.Or(*([x > 0 for x in b] + [x != 0 for x in bp]))
+    implicit = z3.And((dis & ED) == 0, (dis & DD) == 0, anydamp)
+    for r in res:
+        if r.kind != 'return': continue
+        ld = lambda nm, i: ex.load(r.state, w.P(D.arrays[nm][0], 8 * i), FpT('double'))
+        nq_ = [ld('qpos', i) for i in range(nv)]; nvl = [ld('qvel', i) for i in range(nv)]
+        outs = [('qpos%d' % i, D.arrays['qpos'][0], 8 * i, 'f64', nq_[i]) for i in range(nv)] + [('qvel%d' % i, D.arrays['qvel'][0], 8 * i, 'f64', nvl[i]) for i in range(nv)] + [D.out(ex, r.state, 'time')]
+        rp = W.make_replay(so_euler(), 'mj_EulerSkip', w, args, outputs=outs, semantics='real')
+        for i in range(nv):
+            av = z3.If(qvel[i] >= 0, qvel[i], -qvel[i]); dd = b[i]; vp = z3.RealVal(1)
+            for t in range(npoly): vp = vp * av; dd = dd + (t + 2) * bp[npoly * i + t] * vp
+            acc = z3.If(implicit, (fs[i] + fc[i]) / (Mm[i] + h * dd), qacc[i])
+            ck.prove('Euler: qvel[%d] <- qvel + h*qacc, with qacc replaced by (M + h dB/dv)^-1 (qfrc_smooth + qfrc_constraint) only when Euler damping is enabled, dampers are enabled and some dof is damped' % i,
+                     r.state.pc, nvl[i] == qvel[i] + h * acc, site='mj_EulerSkip:velocity', decode=dec, replay=rp)
+            ck.prove('Euler: qpos[%d] <- qpos + h*(new qvel)' % i, r.state.pc, nq_[i] == qpos[i] + h * nvl[i], site='mj_EulerSkip:position', decode=dec, replay=rp)
+        ck.prove('Euler: time <- time + h', r.state.pc, D.load(ex, r.state, 'time') == t0 + h, site='mj_EulerSkip:time', decode=dec, replay=rp)
+    ck.reach('dampers disabled with damped dofs', pre + [(dis & DD) != 0, (dis & ED) == 0, b[0] > 0])
+    ck.reach('implicit damping active', pre + [implicit])
+    ck.memory_obligations(res, decode=dec)
+    return ck
+
+
 def unit_tableau(tier):
     ck = Checker('rk4_tableau', tier, timeout_s=30)
     m = mod()
@@ -139,6 +206,8 @@ def unit_tableau(tier):
 
 def units(tier):
     u = [('rk4_tableau', 'unit_tableau', {})]
-    for nv in ([1, 2] if tier == 'quick' else [1, 2, 3]): u.append(('advance_nv%d' % nv, 'unit_advance', {'nv': nv}))
-    for dyn in ('mjDYN_NONE', 'mjDYN_INTEGRATOR', 'mjDYN_FILTER', 'mjDYN_FILTEREXACT'): u.append(('nextActivation_%s' % dyn, 'unit_activation', {'dyn': dyn}))
+    for nv in ([1, 2] if tier == 'quick' else [1, 2, 3]): u.append(('advance_nv%d' % nv, 'unit_advance', {'nv': nv})); u.append(('euler_nv%d' % nv, 'unit_euler', {'nv': nv}))
+    for dyn in ('mjDYN_NONE', 'mjDYN_INTEGRATOR', 'mjDYN_FILTER', 'mjDYN_FILTEREXACT'):
+        for aid, adr in ((0, 0), (1, 0), (0, 2)) if tier == 'quick' else ((0, 0), (1, 0), (0, 2), (1, 1), (1, 2), (0, 1)):
+            u.append(('nextActivation_%s_id%d_adr%d' % (dyn, aid, adr), 'unit_activation', {'dyn': dyn, 'aid': aid, 'adr': adr}))
     return u
